@@ -54,6 +54,7 @@ def step (line : String) : String :=
   | id :: _cls :: "slsend" :: args => s!"{id} {evalSlSend args}"
   | id :: _cls :: "slhist" :: args => s!"{id} {evalSlHist args}"
   | id :: _cls :: "hs" :: args => s!"{id} {evalHs args}"
+  | id :: _cls :: "hsm" :: args => s!"{id} {evalHsM args}"
   | id :: _cls :: "hs2" :: args => s!"{id} {evalHs2 args}"
   | id :: _cls :: "suite" :: args => s!"{id} {evalSuite args}"
   | id :: _cls :: "suiterec" :: args => s!"{id} {evalSuiteRec args}"
